@@ -70,7 +70,10 @@ func concrete(rng *rand.Rand, class string) outcome {
 		}
 	case "429RA":
 		o.Kind, o.Status = "status", 429
-		o.RetryAfter = []string{"1", "2", "120", "86400"}[rng.IntN(4)]
+		o.RetryAfter = []string{"1", "2", "120", "86400", "007"}[rng.IntN(5)]
+		if rng.IntN(3) == 0 {
+			o.RetryAfter = hugeRetryAfter[rng.IntN(len(hugeRetryAfter))]
+		}
 	case "fatal":
 		o.Kind, o.Err = "fatal", fatalVariants[rng.IntN(len(fatalVariants))]
 	case "timeout":
@@ -279,6 +282,7 @@ func buildStack(spec caseSpec, rng *rand.Rand) *stack {
 	rec := &recorder{
 		targetScript: spec.Target, tokenScript: spec.Token,
 		maxRetry: spec.MaxRetry, minWait: spec.MinWait, maxWait: spec.MaxWait,
+		expBackoff: spec.Backoff == "exp",
 		cancelMode: spec.CancelMode, cancelAtCand: spec.CancelAt, cancelDelay: spec.CancelDelay, cancelSeq: -1,
 	}
 	var backoff retry.Backoff
@@ -705,6 +709,14 @@ func judgeLog(j judgeCtx, rec *recorder, cr callResult, res *worker.Result) (nTa
 		res.Count("policy_calls_live", 1)
 		if pc.Real >= 0 && pc.Err == "" && (pc.Real < j.minWait || pc.Real > j.maxWait) {
 			res.Violate("pause-out-of-bounds:live", fmt.Sprintf("policy computed a pause of %v outside [%v, %v] (attempt %d)", pc.Real, j.minWait, j.maxWait, pc.Attempt), wit())
+		} else if pc.Real >= 0 && pc.Err == "" && pc.Status == 429 && rec.expBackoff {
+			// ExponentialBackoff promises to use a Retry-After on 429
+			if want, ok := expectRetryAfter(pc.RetryAfter, j.minWait, j.maxWait); ok {
+				res.Count("retry_after_checked_live", 1)
+				if pc.Real != want {
+					res.Violate(retryAfterKey(pc.RetryAfter)+":live", fmt.Sprintf("429 with Retry-After: %s and bounds [%v, %v]: policy computed %v, want %v", pc.RetryAfter, j.minWait, j.maxWait, pc.Real, want), wit())
+				}
+			}
 		}
 	}
 
